@@ -159,6 +159,7 @@ func isBinaryOpExprAllValue(expr *BinaryOpExpr, op Operator) bool {
 func (o *ExpressionOptimizer) tryOptimizeBinaryOpExecute(e *BinaryOpExpr) (Expression, bool) {
 	leftIsValue := false
 	rightIsValue := false
+	right0 := e.Right
 	switch left := e.Left.(type) {
 	case *BinaryOpExpr:
 		e.Left, leftIsValue = o.tryOptimizeBinaryOpExecute(left)
@@ -175,6 +176,11 @@ func (o *ExpressionOptimizer) tryOptimizeBinaryOpExecute(e *BinaryOpExpr) (Expre
 		e.Right, rightIsValue = o.tryOptimizeFunctionCall(right)
 	case *StringExpr, *NumberExpr, *FloatExpr, *BoolExpr:
 		rightIsValue = true
+	}
+	if e.Op == Div && rightIsValue && isZeroLiteral(e.Right) && e.Right != right0 {
+		// The checker refuses a literal zero divisor: x / 0 has no spelling,
+		// the divisor stays the expression it was written as
+		e.Right, rightIsValue = right0, false
 	}
 	// Not value
 	if !(leftIsValue && rightIsValue) {
@@ -384,6 +390,17 @@ func (o *ExpressionOptimizer) tryOptimizeFunctionCall(e *FunctionCallExpr) (Expr
 		}
 	}
 	return e, false
+}
+
+// isZeroLiteral tells whether expr is a number literal with value zero
+func isZeroLiteral(expr Expression) bool {
+	switch e := expr.(type) {
+	case *NumberExpr:
+		return e.Int == 0
+	case *FloatExpr:
+		return e.Float == 0.0
+	}
+	return false
 }
 
 // hasFloatLiteral tells whether the language can spell f. Like a negative
